@@ -2110,8 +2110,14 @@ PPL::MIP_Problem::solve_mip(bool& have_incumbent_solution,
               << (Variable(non_int_dim) <= tmp_coeff1)
               << "." << std::endl;
 #endif // PPL_NOISY_SIMPLEX
-    solve_mip(have_incumbent_solution, incumbent_solution_value,
-              incumbent_solution_point, mip_aux, i_vars);
+    if (solve_mip(have_incumbent_solution, incumbent_solution_value,
+                  incumbent_solution_point, mip_aux, i_vars)
+        == UNBOUNDED_MIP_PROBLEM) {
+      // The branch has an unbounded relaxation and an integral feasible
+      // point was found (it was stored in `incumbent_solution_point'):
+      // the MIP problem is unbounded.
+      return UNBOUNDED_MIP_PROBLEM;
+    }
   }
   // TODO: change this when we will be able to remove constraints.
   mip.add_constraint(Variable(non_int_dim) >= tmp_coeff2);
@@ -2122,8 +2128,11 @@ PPL::MIP_Problem::solve_mip(bool& have_incumbent_solution,
             << (Variable(non_int_dim) >= tmp_coeff2)
             << "." << std::endl;
 #endif // PPL_NOISY_SIMPLEX
-  solve_mip(have_incumbent_solution, incumbent_solution_value,
-            incumbent_solution_point, mip, i_vars);
+  if (solve_mip(have_incumbent_solution, incumbent_solution_value,
+                incumbent_solution_point, mip, i_vars)
+      == UNBOUNDED_MIP_PROBLEM) {
+    return UNBOUNDED_MIP_PROBLEM;
+  }
   return have_incumbent_solution ? mip_status : UNFEASIBLE_MIP_PROBLEM;
 }
 
